@@ -390,6 +390,56 @@ fn check_emitters(run: &Run, cases: u64) {
                 return;
             }
         }
+        // 3. listings stitched from several indexes: two or three further backups of the same
+        // (or a slightly changed) tree are killed before one of their writes -- with even odds
+        // before the same write, so that consecutive interrupted versions stop at the same
+        // path -- and every version is listed again
+        if case % 2 == 0 {
+            let n_int = 2 + rng.below(2) as usize;
+            let total_writes = {
+                let probe = sc.join("probe");
+                fmt06::copy_dir(&arch, &probe);
+                let ic2 = crate::icept::Icept::new(&probe, crate::icept::Mode::Log, 0);
+                let _ = cs::backup(ic2.transport(1), &src, o, &[], None);
+                let n = ic2.log().iter().filter(|e| e.verb == crate::icept::V::Write).count();
+                crate::scratch::rm(&probe);
+                n
+            };
+            let mut nth = 1 + rng.below(total_writes.max(2) as u64 - 1) as usize;
+            let mut kills = Vec::new();
+            for _ in 0..n_int {
+                if rng.chance(1, 2) {
+                    nth = 1 + rng.below(total_writes.max(2) as u64 - 1) as usize;
+                }
+                let ic = crate::icept::Icept::new(&arch, crate::icept::Mode::CrashAtWrite { nth }, case);
+                let _ = cs::backup(ic.transport(1), &src, o, &[], None);
+                kills.push(nth);
+            }
+            let raw = fmt06::read_archive(&arch, false);
+            for (id, band) in &raw.bands {
+                if band.head_raw.is_none() {
+                    continue;
+                }
+                let own = band.own_entries();
+                if let Some((a, b)) = first_disorder(own.iter().map(|e| e.apath.as_str())) {
+                    run.violation("index-out-of-order", format!("written index of b{id:04} has {a:?} before {b:?}"), json!({"kind": "emit", "case": case}));
+                    return;
+                }
+                let l = cs::list(cs::local(&arch), Some(*id), "/", &[]);
+                if let Some(v) = l.value() {
+                    run.count("stitched_listings_checked", 1);
+                    run.count("listed_entries", v.len() as u64);
+                    if let Some((a, b)) = first_disorder(v.iter().map(|e| e.apath.as_str())) {
+                        run.violation(
+                            "stitched-listing-out-of-order",
+                            format!("after {n_int} backups killed before writes {kills:?} ({}), listing b{id:04} has {a:?} before {b:?}", o.label()),
+                            json!({"kind": "emit", "case": case}),
+                        );
+                        return;
+                    }
+                }
+            }
+        }
         run.nontrivial(tree::tree_sig(&snap));
         run.sample(|| json!({"emitter_case": case, "options": o.label(), "walked": walked.iter().take(12).collect::<Vec<_>>()}));
     });
@@ -431,9 +481,9 @@ pub fn run(tier: Tier, replay: Option<Value>) -> i32 {
     check_random_pairs(&run, tier.pick(300_000, 3_000_000));
     check_emitters(&run, tier.pick(400, 6000));
     run.finish(
-        "validity: every string over a 13-component alphabet (incl. '', '.', '..', NUL, bytes below and above '/') up to the stated depth, with and without leading/trailing slash; order: all pairs and triples of valid paths over two alphabets (exhaustive) + random longer paths; emitters: generated trees walked, backed up with small hunks, decoded independently. Distinct non-trivial = distinct unordered pairs of different paths compared + distinct generated trees.",
+        "validity: every string over a 13-component alphabet (incl. '', '.', '..', NUL, bytes below and above '/') up to the stated depth, with and without leading/trailing slash; order: all pairs and triples of valid paths over two alphabets (exhaustive) + random longer paths; emitters: generated trees walked, backed up with small hunks, decoded independently and listed; for every second tree two or three further backups are killed before a write (with even odds before the same write as the previous one) and every version, now stitched from up to four indexes, is listed again. Distinct non-trivial = distinct unordered pairs of different paths compared + distinct generated trees.",
         &["the documented order is as restated in oracle::apath_key (doc/format.md)", "snap/serde_json decode written hunks correctly"],
         Some(true),
-        &[("pairs_compared", 1000), ("triples_checked", 1000), ("validity_strings_checked", 1000), ("source_walks", 10), ("hunk_entries_decoded", 50)],
+        &[("pairs_compared", 1000), ("triples_checked", 1000), ("validity_strings_checked", 1000), ("source_walks", 10), ("hunk_entries_decoded", 50), ("stitched_listings_checked", 50)],
     )
 }
